@@ -10,3 +10,4 @@ import ThriftVerif.Props.C08
 #print axioms Props.C08.wire_shape_reply
 #print axioms Props.C08.call_sequence
 #print axioms Props.C08.answer_sufficient
+#print axioms Props.C08.streaming_removed
